@@ -22,6 +22,7 @@ def handle : Handler
   | "base", [v] => do let v ← hx v; pure (showRes (pseudoVersionBase v))
   | "rev", [v] => do let v ← hx v; pure (showRes (pseudoVersionRev v))
   | "time", [v] => do let v ← hx v; pure (showRes (pseudoVersionTime v))
+  | "compare", [a, b] => do let a ← hx a; let b ← hx b; pure (toString (Semver.compare a b))
   | "incdecimal", [d] => do let d ← hx d; pure (showOpt (incDecimal d))
   | "decdecimal", [d] => do let d ← hx d; pure (xh (decDecimal d))
   | _, _ => none
